@@ -9,7 +9,7 @@ Property theorems about `Model/DirectPtycho.lean` (the streaming skeleton of
 * `batch_invariant`, `batch_size_invariant` — any partition of the BF pixels into batches, in any
   order, gives the same corrected stack, for all five kernels and both the single- and the two-pass
   path.  Stated over **any carrier whose `+` is a commutative monoid** (`AddLaws`: ℝ, ℚ, …); float32
-  summation order is not covered by this and is *measured* by the harness (≤ 2e-6 relative).
+  summation order is not covered by this and is *measured* by the harness (≤ 1e-5 relative).
 * `linear_in_stack` — the corrected stack is linear in the virtual-BF stack (over ℝ; the FFT pair is a
   parameter assumed linear — `Fourier.Linear`, which the defining DFT sums satisfy).
 * `submask_recombine` — single-pass kernels: `W_A·bf_A + W_B·bf_B = W_S·bf_S` whenever the stack rows
@@ -112,14 +112,14 @@ example : SubMask [true, false, true, true, false, true] [false, false, true, fa
 /--
 **Batch invariance.** For every kernel (single-pass `ssb/prlx/icom`, two-pass `obf/mf`), every FFT
 pair, every problem (`G`, `P`, `W`, `env`, `eps` arbitrary; for the two-pass kernels the power images
-have the grid's size) and every duplicate-free list `items` of BF pixels: *any* schedule `batches`
+of the scheduled pixels have the grid's size) and every duplicate-free list `items` of BF pixels: *any* schedule `batches`
 whose concatenation is a permutation of `items` — any partition, in any order, empty batches allowed —
 yields the same corrected stack as the single batch `[items]`.
 -/
 theorem batch_invariant {R : Type} [Num R] (hR : AddLaws R) (F : Fourier R) (k : Kernel) (pb : Problem R)
-    (hP : k.twoPass = true → ∀ i, (pb.P i).length = pb.rows * pb.cols)
-    (items : List Nat) (hnd : items.Nodup) (batches : List (List Nat))
-    (hperm : batches.flatten.Perm items) :
+    (items : List Nat) (hnd : items.Nodup)
+    (hP : k.twoPass = true → ∀ i ∈ items, (pb.P i).length = pb.rows * pb.cols)
+    (batches : List (List Nat)) (hperm : batches.flatten.Perm items) :
     reconstruct F k pb batches = reconstruct F k pb [items] := by
   have hnd' : batches.flatten.Nodup := hperm.nodup_iff.mpr hnd
   rw [reconstruct_eq F k pb batches hnd', reconstruct_eq F k pb [items] (by simpa using hnd)]
@@ -137,7 +137,8 @@ theorem batch_invariant {R : Type} [Num R] (hR : AddLaws R) (F : Fourier R) (k :
     | true =>
       have hP' := hP hk
       simp only [if_true]
-      rw [power_flatten hR pb hP' batches _ (by simp), power_flatten hR pb hP' [items] _ (by simp)]
+      rw [power_flatten hR pb batches (fun i hi => hP' i (hperm.mem_iff.mp hi)) _ (by simp),
+        power_flatten hR pb [items] (fun i hi => hP' i (by simpa using hi)) _ (by simp)]
       rw [sumP_perm hR pb hperm]
       simp
   · have hi' : i ∉ items := fun h => hi (hmem.mpr (by simpa using h))
@@ -145,9 +146,10 @@ theorem batch_invariant {R : Type} [Num R] (hR : AddLaws R) (F : Fourier R) (k :
 
 /-- every `max_batch_size = b ≥ 1` (the `SimpleBatcher` slices) gives the full-batch result -/
 theorem batch_size_invariant {R : Type} [Num R] (hR : AddLaws R) (F : Fourier R) (k : Kernel) (pb : Problem R)
-    (hP : k.twoPass = true → ∀ i, (pb.P i).length = pb.rows * pb.cols) (b : Nat) (hb : 0 < b) :
+    (hP : k.twoPass = true → ∀ i < pb.n, (pb.P i).length = pb.rows * pb.cols) (b : Nat) (hb : 0 < b) :
     reconstruct F k pb (chunkSchedule pb.n b) = reconstruct F k pb [List.range pb.n] := by
-  apply batch_invariant hR F k pb hP (List.range pb.n) List.nodup_range
+  apply batch_invariant hR F k pb (List.range pb.n) List.nodup_range
+    (fun hk i hi => hP hk i (List.mem_range.mp hi))
   rw [chunkSchedule_flatten pb.n b hb]
 
 /-- with a valid schedule every row of the stack is written (nothing of `torch.empty` survives) -/
@@ -168,6 +170,17 @@ theorem addLaws_rat : AddLaws Rat :=
    by intro a; show a + (0 : Rat) = a; exact Rat.add_zero a⟩
 
 theorem addLaws_real : AddLaws ℝ := DirectPtycho.addLaws_real
+
+/-- non-vacuity: every hypothesis of `batch_invariant` holds of a concrete exact (ℚ) 3-pixel matched-filter
+problem with the schedule `[[2], [], [0, 1]]` -/
+example :
+    let F : Fourier Rat := ⟨fun _ _ x => x, fun _ _ x => x⟩
+    let pb : Problem Rat :=
+      { rows := 1, cols := 2, n := 3, G := fun i => [⟨(i : Rat) + 1, 0⟩, ⟨1, (i : Rat)⟩],
+        P := fun i => [(i : Rat) + 1, 2], W := 2, env := [1, 1 / 2], eps := 1 / 10 }
+    reconstruct F .mf pb [[2], [], [0, 1]] = reconstruct F .mf pb [[0, 1, 2]] := by
+  intro F pb
+  exact batch_invariant addLaws_rat F .mf pb [0, 1, 2] (by decide) (fun _ i _ => rfl) [[2], [], [0, 1]] (by decide)
 
 /-- non-vacuity: a 3-pixel two-pass problem, schedule `[[2], [], [0, 1]]` against `[[0, 1, 2]]` -/
 example : [[2], [], [0, 1]].flatten.Perm [0, 1, 2] ∧ [0, 1, 2].Nodup ∧ Kernel.obf.twoPass = true ∧
